@@ -95,6 +95,10 @@ def setlin(ctx, tr, what, ntraces, record=True):
         p = os.path.join(ctx.wd, "failing-trace.ndjson")
         open(p, "w").write("\n".join(sc) + "\n")
         ev = json.loads(open(tr).read().splitlines()[line - 1]) if line else {}
+        if ev.get("e") == "Panic":
+            ctx.violation("%s:the code under test panicked on a legal call sequence: %s (%s) [%s]" % (ctx.pid, ev.get("msg"), ev.get("where"), what),
+                          files=[p], meta={"trace_spec": "SetLin.tla", "cfg": "Trace_SetLin.cfg", "driver": what})
+            return False
         ctx.violation("C13:no linearization of the recorded history explains event %d of the failing scenario (%s) [%s]" %
                       (line - first + 1, json.dumps({k: ev.get(k) for k in ("e", "p", "ok", "items") if k in ev}), what),
                       files=[p], meta={"trace_spec": "SetLin.tla", "cfg": "Trace_SetLin.cfg", "driver": what})
